@@ -56,6 +56,11 @@ def parse_result(out):
                 if "=" in t:
                     k, v = t.split("=", 1)
                     d[k] = v
+        elif l.startswith("presult2 "):
+            for t in l.split()[1:]:
+                if "=" in t:
+                    k, v = t.split("=", 1)
+                    d["p2_" + k] = v
         elif l.startswith("presult "):
             for t in l.split()[1:]:
                 if "=" in t:
@@ -103,7 +108,19 @@ def gen_cases(ctx):
     nph = 5 if ctx.quick() else 40
     phases = [["case %d phases" % (len(cases) + len(forced) + i),
                "phases %d %d %d" % (rng.randint(1, 10 ** 6), rng.choice([0, 20, 50, 100]), 2)] for i in range(nph)]
-    return cases, forced, phases
+    base = len(cases) + len(forced) + len(phases)
+    # sharing policy inside the threaded lifecycle: every flag combination x shared flag of the newcomer,
+    # then the survivor is torn down by peer close / rfbCloseClient / shutdown only
+    combos = [(a, n, d, b) for (a, n, d) in ((0, 0, 0), (0, 0, 1), (0, 1, 0), (0, 1, 1), (1, 0, 0), (1, 0, 1)) for b in (0, 1)]
+    policy = []
+    for (a, n, d, b) in combos:
+        for route in ((0, 1, 2) if not ctx.quick() else (rng.randint(0, 2),)):
+            policy.append(["case %d policy" % (base + len(policy)),
+                           "policy %d %d %d %d %d %d %d" % (rng.randint(1, 10 ** 6), rng.choice([0, 20, 60]), a, n, d, b, route)])
+    # heavily fragmented update (> maxRectsPerUpdate), slow reader, mark placed while the output thread is blocked
+    frag = [["case %d fragment" % (base + len(policy) + i), "fragment %d %d" % (rng.randint(1, 10 ** 6), y)]
+            for i, y in enumerate((0, 20, 50, 100) if ctx.quick() else (0, 10, 20, 50, 100) * 4)]
+    return cases, forced, phases, policy, frag
 
 
 def check(ctx):
@@ -111,7 +128,7 @@ def check(ctx):
     proof_ok = vlib.prove(ctx, PROP_FILE, ["Extract/Extract_C13.vo"])
     sync_extraction()
     mexe = vlib.build_ocaml("C13", "driver_C13.ml", "Extract/Extract_C13.vo")
-    cases, forced, phases = gen_cases(ctx)
+    cases, forced, phases, policy, frag = gen_cases(ctx)
     ncyc = list(range(0, 10))
     rc, mout, merr = vlib.run_driver(mexe, "case 0 model\ntable\nwitness\n" + "".join("cycles %d\n" % n for n in ncyc))
     model = {"table": set(), "palette": set(), "zombies": {}, "witness": []}
@@ -131,6 +148,8 @@ def check(ctx):
     res = run_cases(cexe, cases, ASAN_ENV, workers)
     fres = run_cases(cexe, forced, ASAN_ENV, 3)
     pres = run_cases(cexe, phases, ASAN_ENV, 5)
+    polres = run_cases(cexe, policy, ASAN_ENV, 5)
+    fragres = run_cases(cexe, frag, ASAN_ENV, 4)
     tsan_lines = []
     tsan_cases = cases[:2] if ctx.quick() else cases[:12]
     try:
@@ -140,7 +159,7 @@ def check(ctx):
         tres = []
         ctx.assumptions.append("TSan build unavailable: " + str(e)[:120])
 
-    hist = {"stress": len(cases), "forced": len(forced), "phases": len(phases), "tsan": len(tres)}
+    hist = {"stress": len(cases), "forced": len(forced), "phases": len(phases), "policy": len(policy), "fragment": len(frag), "tsan": len(tres)}
     pairs_seen = set()
     nstress_ok = 0
     mism = []
@@ -261,6 +280,58 @@ def check(ctx):
             feat = asan_features(err)
             report("phases run crashed / AddressSanitizer reported %s" % (feat,), feat, c, out, asan_head(err))
 
+    # sharing policy + teardown of the survivor, fragmented update with a mark mid-send
+    npol_ok = nfrag_ok = 0
+    def generic_fail(c, d, out, err):
+        if d.get("crash") == "1":
+            feat = asan_features(err)
+            report("run crashed / AddressSanitizer reported %s" % (feat,), feat, c, out, asan_head(err))
+            return True
+        if d.get("hang") == "1":
+            report("watchdog: phase '%s' did not return" % d.get("phase"), {"defect": "hang", "phase": d.get("phase", "?")}, c, out, err)
+            return True
+        return False
+    for c, (rc, out, err) in zip(policy, polres):
+        d = parse_result(out)
+        p = c[1].split()
+        if "p_policy_ok" not in d:
+            if not generic_fail(c, d, out, err):
+                ninconclusive.append(out[-200:])
+            continue
+        bad = False
+        if d.get("p_policy_ok") != "1":
+            bad = True
+            report("sharing policy under the background loop: alwaysShared=%s neverShared=%s dontDisconnect=%s, newcomer shared=%s: first client "
+                   "%s, newcomer %s (1 = served, 0 = closed by the server, -1 = silent)" % (p[3], p[4], p[5], p[6], d.get("p_a"), d.get("p_b")),
+                   {"defect": "sharing_policy"}, c, out)
+        if d.get("p2_torn_down_in_time") == "0":
+            bad = True
+            report("after the sharing decision (alwaysShared=%s neverShared=%s dontDisconnect=%s, newcomer shared=%s) a connection that ended "
+                   "(route %s: 0 peer close, 1 rfbCloseClient) was not torn down within 5 s: clientGoneHook ran %s times for %s clients" %
+                   (p[3], p[4], p[5], p[6], p[7], d.get("p2_gone"), d.get("p2_new")), {"defect": "not_torn_down"}, c, out)
+        if generic_fail(c, d, out, err):
+            bad = True
+        elif d.get("new") != d.get("gone") or d.get("dupgone", "0") != "0":
+            bad = True
+            report("clientGoneHook ran %s times for %s accepted clients" % (d.get("gone"), d.get("new")), {"defect": "gone_count"}, c, out)
+        npol_ok += 0 if bad else 1
+    for c, (rc, out, err) in zip(frag, fragres):
+        d = parse_result(out)
+        if "p_fragment_ok" not in d:
+            if not generic_fail(c, d, out, err):
+                ninconclusive.append(out[-200:])
+            continue
+        if d.get("p_rects_in_first_update") != "1" or d.get("p_write_blocked", "0") == "0":
+            ninconclusive.append("fragment scenario did not produce the blocked bounding-box update: " + out[-200:])
+        elif d.get("p_fragment_ok") != "1":
+            report("a staying client did not end up with the final framebuffer: an update of 60 separate squares went out as its bounding box to a "
+                   "slow reader; while the output thread was blocked in write() the application changed and marked a pixel inside the box; after the "
+                   "update and further incremental requests %s pixel(s) still differ (the mark placed during the send was lost)" % d.get("p_diff"),
+                   {"defect": "final_contents", "after": "mark_during_send"}, c, out)
+        else:
+            nfrag_ok += 1
+        generic_fail(c, d, out, err)
+
     if len(ninconclusive) * 2 > len(phases):
         ctx.violation("threaded event loop (sampled run): %d of %d final-contents runs could not even set their clients up: %s" %
                       (len(ninconclusive), len(phases), ninconclusive[0]), {"defect": "crash", "site": "setup"},
@@ -308,8 +379,8 @@ def check(ctx):
         report("ThreadSanitizer: " + kind, feat, c, "", r[:4000])
 
     ctx.coverage.update(
-        evaluations=len(cases) + len(forced) + len(phases) + len(tres), distinct_nontrivial=len(pairs_seen) + nstress_ok + nphase_ok,
-        final_contents_phase_runs_ok=nphase_ok, final_contents_phase_runs_inconclusive=len(ninconclusive),
+        evaluations=len(cases) + len(forced) + len(phases) + len(policy) + len(frag) + len(tres), distinct_nontrivial=len(pairs_seen) + nstress_ok + nphase_ok + npol_ok + nfrag_ok,
+        final_contents_phase_runs_ok=nphase_ok, policy_runs_ok=npol_ok, fragment_runs_ok=nfrag_ok, final_contents_phase_runs_inconclusive=len(ninconclusive),
         rule="PROOF PART: theorems of Props/Properties_C13.v hold for every schedule of the protocol models. SAMPLED PART: "
              "each evaluation is one stress run of the real background loop (own process, seeded yield injection at every "
              "lock/wait/socket call of the library, watchdog, ASan) or one forced-schedule replay or one TSan run; "
